@@ -76,7 +76,7 @@ static std::string oracle(const Case& c) {
 
 static void run() {
     setup(); Args& a = W().args;
-    rc_run("c04-keygen", a.n(15000, 300000), 100, [&]() {
+    rc_run("c04-keygen", a.n(40000, 300000), 100, [&]() {
         auto sec = *g::secret19(); int bd = *g::birthday(); unsigned feat = *in_range<unsigned>(0, 32) & 0x17u; int coin = *g::coin();
         size_t ks = *rc::gen::element<size_t>(32, 32, 0, 1, 16, 33, 64, 4096, (size_t)-1 / 2, 31, 65);
         std::string path = *rc::gen::element<std::string>("created", "decoded", "loaded", "crypt2");
